@@ -53,6 +53,11 @@ def regenerate():
     for name, z in re.findall(r"Definition k_(\w+) : Z := (\d+)%Z\.", src):
         if c14_names.enc(name) != int(z):
             raise c14_ctors.Untranslatable("Types.v: k_%s is not enc(%r)" % (name, name))
+    ocode, opairs = c14_ctors.translate_overrides()
+    p = os.path.join(gen, "Overrides.v")
+    if not os.path.exists(p) or open(p).read() != ocode:
+        open(p, "w").write(ocode)
+    meta["overrides"] = opairs
     from . import c14_alloc
     acode, ameta = c14_alloc.translate(common.REPO)
     p = os.path.join(gen, "AllocSites.v")
@@ -1188,9 +1193,14 @@ def repaired_cell(c, reproduced=()):
         if e.get("property") != PROP or e.get("status") != "known" or e.get("id") in reproduced:
             continue
         k = e.get("key", {})
-        if k.get("class") in classes and ("op" not in k or k["op"] == family(c.q)):
+        if k.get("class") in classes and ("op" not in k or opgroup(k["op"]) == opgroup(family(c.q))):
             return e
     return None
+
+
+def opgroup(f):
+    """type()/double()/float() of an enclosing operator call to(dtype) on nested operators: one family for this purpose"""
+    return "convert" if f in ("to", "type", "double", "float") else f
 
 
 def report_direct(ctx, meta, cases, mism, limit=None):
